@@ -6,12 +6,13 @@
   transcribes the control flow of builtin_promise.go around user-code calls (reaction job :199,
   thenable job :175, Promise constructor :246, performPromiseThen :313, promiseResolve :342,
   finally :354, all/allSettled/any/race :402-538, Runtime.NewPromise :628) and asyncRunner
-  (func.go:688-745), and the drain loop of Runtime.leave()/leaveAbrupt() (runtime.go:2836-2852).
+  (func.go:688-745), and the drain loop of Runtime.leave()/leaveAbrupt() (runtime.go:2871-2891).
 
   The kernel state is held as `RK = {k // Reach k}` and modified only through `RK.apply`.
   Core Lean only.
 -/
 import GojaModel.C10.Model
+import GojaModel.C10.Comb
 
 namespace GojaModel.C10
 
@@ -73,10 +74,10 @@ def lookupId {α : Type} (l : List (Nat × α)) (i : Nat) : Option α :=
 
 /-! ## Interpreter state -/
 
+/-- One running all/allSettled/any: bookkeeping record (reachable by construction) + aggregate capability. -/
 structure Comb where
-  values : List Val
-  remaining : Nat
-  cap : Cap
+  crec : CRK := default
+  cap : Cap := default
   deriving Inhabited
 
 structure ARun where
@@ -92,7 +93,6 @@ structure St where
   rslots : List (Option (Fn × Fn)) := []
   gslots : List (Option (Fn × Fn)) := []
   combs : List Comb := []
-  cells : List Bool := []
   asyncs : List ARun := []
   events : List String := []     -- newest first
   oof : Bool := false
@@ -245,27 +245,16 @@ def fopt (f : Option Fn) : Arg :=
   | some fn => .f fn
   | none => .v .undef
 
-def newCell : M Nat := do
-  let st ← get
-  set { st with cells := st.cells ++ [false] }
-  return st.cells.length
-
-/-- Check-and-set of the `alreadyCalled` flag of a combinator element function. -/
-def testAndSetCell (cell : Nat) : M Bool := do
-  let st ← get
-  if st.cells.getD cell true then return true
-  set { st with cells := st.cells.set cell true }
-  return false
-
-/-- Body of the element functions of all/allSettled (after the alreadyCalled check), builtin_promise.go:421-426. -/
-def combStore (prog : Prog) (c idx : Nat) (x : Val) (asErrors : Bool) : M Unit := do
+/-- An element function of all/allSettled/any is called: alreadyCalled check, store, count down, maybe settle the
+aggregate (builtin_promise.go:416-427, :453-468, :497-510). -/
+def combElem (prog : Prog) (c idx : Nat) (x : Val) (asErrors : Bool) : M Unit := do
   let st ← get
   let cb := st.combs.getD c default
-  let cb := { cb with values := cb.values.set idx x, remaining := cb.remaining - 1 }
-  set { st with combs := st.combs.set c cb }
-  if cb.remaining == 0 then
-    if asErrors then capReject cb.cap (.aggErr cb.values)
-    else capResolve prog cb.cap (.arr cb.values)
+  let (r', fired) := cb.crec.elemCall idx x
+  set { st with combs := st.combs.set c { cb with crec := r' } }
+  if fired then
+    if asErrors then capReject cb.cap (.aggErr r'.val.values)
+    else capResolve prog cb.cap (.arr r'.val.values)
 
 mutual
 
@@ -308,17 +297,14 @@ def callFn (prog : Prog) : Nat → Fn → Val → List Arg → M Res
       | other => return other
     | .valueThunk v => return .normal v
     | .thrower v => return .throw v
-    | .allElem c idx cell =>                          -- builtin_promise.go:416-427
-      if ← testAndSetCell cell then return .normal .undef
-      combStore prog c idx (argVal args 0) false
+    | .allElem c idx _ =>                             -- builtin_promise.go:416-427
+      combElem prog c idx (argVal args 0) false
       return .normal .undef
-    | .settledElem c idx cell rej =>                  -- builtin_promise.go:453-468
-      if ← testAndSetCell cell then return .normal .undef
-      combStore prog c idx (.settledObj (!rej) (argVal args 0)) false
+    | .settledElem c idx _ rej =>                     -- builtin_promise.go:453-468
+      combElem prog c idx (.settledObj (!rej) (argVal args 0)) false
       return .normal .undef
-    | .anyElem c idx cell =>                          -- builtin_promise.go:497-510
-      if ← testAndSetCell cell then return .normal .undef
-      combStore prog c idx (argVal args 0) true
+    | .anyElem c idx _ =>                             -- builtin_promise.go:497-510
+      combElem prog c idx (argVal args 0) true
       return .normal .undef
     | .asyncFul ar =>                                 -- func.go:688
       let x := argVal args 0
@@ -428,43 +414,36 @@ def execActs (prog : Prog) : Nat → List Act → Val → M ActsOut
     | .comb kind d vs =>                              -- promise_all/allSettled/any/race :402-538
       let pcap ← newCapM
       let c := (← get).combs.length
-      modify fun st => { st with combs := st.combs ++ [{ values := [], remaining := 1, cap := pcap }] }
+      modify fun st => { st with combs := st.combs ++ [{ cap := pcap }] }
       let rec loop : List VExpr → Nat → M Unit
         | [], _ => pure ()
         | e :: es, idx => do
           let val ← evalV e a
-          modify fun st =>
-            let cb := st.combs.getD c default
-            { st with combs := st.combs.set c { cb with values := cb.values ++ [.undef] } }
           let next ← promiseResolveM prog val
-          let bump : M Unit := modify fun st =>
-            let cb := st.combs.getD c default
-            { st with combs := st.combs.set c { cb with remaining := cb.remaining + 1 } }
           match kind with
-          | .all =>
-            let cell ← newCell
-            bump
-            let _ ← performThen next (some (.allElem c idx cell)) (some pcap.rej)
-          | .allSettled =>
-            let cell ← newCell
-            bump
-            let _ ← performThen next (some (.settledElem c idx cell false)) (some (.settledElem c idx cell true))
-          | .any =>
-            let cell ← newCell
-            bump
-            let _ ← performThen next (some pcap.res) (some (.anyElem c idx cell))
           | .race =>
             let _ ← performThen next (some pcap.res) (some pcap.rej)
+          | _ =>
+            modify fun st =>
+              let cb := st.combs.getD c default
+              { st with combs := st.combs.set c { cb with crec := cb.crec.addElem } }
+            match kind with
+            | .all =>
+              let _ ← performThen next (some (.allElem c idx idx)) (some pcap.rej)
+            | .allSettled =>
+              let _ ← performThen next (some (.settledElem c idx idx false)) (some (.settledElem c idx idx true))
+            | _ =>
+              let _ ← performThen next (some pcap.res) (some (.anyElem c idx idx))
           loop es (idx + 1)
       loop vs 0
       if kind != .race then
         let st ← get
         let cb := st.combs.getD c default
-        let cb := { cb with remaining := cb.remaining - 1 }
-        set { st with combs := st.combs.set c cb }
-        if cb.remaining == 0 then
-          if kind == .any then capReject pcap (.aggErr cb.values)
-          else capResolve prog pcap (.arr cb.values)
+        let (r', fired) := cb.crec.finish
+        set { st with combs := st.combs.set c { cb with crec := r' } }
+        if fired then
+          if kind == .any then capReject pcap (.aggErr r'.val.values)
+          else capResolve prog pcap (.arr r'.val.values)
       setSlot d pcap.promise; cont
     | .call aid d =>                                  -- asyncRunner.start, func.go:734
       match lookupId prog.asyncs aid with
@@ -482,7 +461,7 @@ def execActs (prog : Prog) : Nat → List Act → Val → M ActsOut
 
 end
 
-/-- Run the job at the head of the current batch (runtime.go:2840-2842). Returns true on abort. -/
+/-- Run the job at the head of the current batch (runtime.go:2875-2877). Returns true on abort. -/
 def runJob (prog : Prog) (fuel : Nat) : M Bool := do
   let k ← kget
   match k.cur with
